@@ -50,7 +50,7 @@ M0 == [scn |-> 0, mode |-> "", maxroute |-> 0,
        isDown |-> FALSE, lastDown |-> 0,
        nrc |-> [s \in Stmts |-> 0], nre |-> [s \in Stmts |-> 0],   \* computations begun / entries removed, per statement
        ntab |-> [k \in KS |-> FALSE],       \* the latest fetch of the keyspace found no table t
-       poisoned |-> [k \in KS |-> FALSE],   \* a fetch whose tables query failed ran to its end: partial metadata is cached
+       poisoned |-> [k \in KS |-> FALSE], poisonEnd |-> [k \in KS |-> 0],   \* a fetch whose tables query failed ran to its end: partial metadata is cached
        dead |-> FALSE]
 
 Cur == Log[l]
@@ -148,7 +148,7 @@ StepOf(r, mm) ==
              v1 == IF ~good THEN {V("routing-key-not-from-partition-key", r, <<r.ans, r.idx>>)} ELSE {}
              v2 == IF r.ans = "err" /\ ~justified
                      THEN {V(IF r.err = "noconn" THEN "routing-noconn-error-cached"
-                             ELSE IF r.err = "nometa" /\ mm.poisoned[r.k] THEN "schema-failed-tables-query-cached"
+                             ELSE IF r.err = "nometa" /\ (mm.poisoned[r.k] \/ mm.poisonEnd[r.k] >= c.ws) THEN "schema-failed-tables-query-cached"
                              ELSE "routing-error-without-cause", r, r.err)} ELSE {}
              m1 == [mm EXCEPT !.calls[r.x] = NoCall]
          IN <<[m1 EXCEPT !.quietR[r.s] = IF OpenRouteOn(m1, r.s, r.x) THEN @ ELSE l,
@@ -159,7 +159,7 @@ StepOf(r, mm) ==
          IN <<[mm EXCEPT !.fetch = [x \in DOMAIN @ \cup {r.rid} |->
                                       IF x = r.rid THEN [k |-> r.k, parts |-> [NoParts EXCEPT !.ks = IF bad THEN 0 ELSE r.v],
                                                          done |-> FALSE, last |-> l] ELSE @[x]],
-                         !.live[r.k] = "no", !.poisoned[r.k] = FALSE,
+                         !.live[r.k] = "no", !.poisoned[r.k] = FALSE, !.poisonEnd[r.k] = IF mm.poisoned[r.k] THEN l ELSE @,
                          !.cFail[r.k] = IF r.ans = "fail" THEN l ELSE @,
                          !.cAbsent[r.k] = IF r.ans = "absent" THEN l ELSE @], v1, {}, {}>>
     [] r.ev = "q_ans" ->
